@@ -25,7 +25,7 @@ import numpy as np
 VERIF_ROOT = os.path.dirname(os.path.dirname(os.path.abspath(__file__)))
 REPO_ROOT = os.environ.get("HITEN_REPO", "/repo")
 
-LEVELS = {"C13": "fault_enumeration"}
+LEVELS = {"C13": "fault_enumeration", "C17": "translation_validation"}
 
 MAX_WITNESS_PER_CLAUSE = 3
 MAX_SAMPLES = 12
@@ -77,6 +77,7 @@ class Ctx:
         self.evals = Counter()            # clause -> number of predicate evaluations
         self.stats = {}                   # name -> max value
         self.samples = []
+        self.auto_samples = []
         self.violations = []              # dicts
         self.vcount = Counter()           # (clause, mechanism) -> count
         self.requirements = {}            # counter name -> minimum
@@ -100,6 +101,8 @@ class Ctx:
         self.cases[cls] += 1
         if nontrivial and key is not None:
             self.distinct.add(khash([cls, key]))
+        if key is not None and len(self.auto_samples) < 4:
+            self.auto_samples.append({"class": cls, "case_key": _jsonable(key)})
 
     def sample(self, obj):
         if len(self.samples) < MAX_SAMPLES:
@@ -154,7 +157,7 @@ class Ctx:
     def dump(self):
         return {
             "cases": dict(self.cases), "distinct": sorted(self.distinct), "evals": dict(self.evals),
-            "stats": self.stats, "samples": self.samples, "violations": self.violations,
+            "stats": self.stats, "samples": self.samples or self.auto_samples, "violations": self.violations,
             "vcount": [[k[0], k[1], v] for k, v in self.vcount.items()],
             "requirements": self.requirements, "notes": self.notes,
             "inconclusive": self.inconclusive, "skipped": dict(self.skipped),
@@ -184,6 +187,12 @@ class Ctx:
                 self.notes[k] = v
             elif isinstance(v, (int, float)) and isinstance(self.notes[k], (int, float)) and k.startswith("n_"):
                 self.notes[k] += v
+            elif k == "coverage_extra" and isinstance(v, dict):
+                for kk, vv in v.items():
+                    if isinstance(vv, (int, float)) and isinstance(self.notes[k].get(kk), (int, float)):
+                        self.notes[k][kk] = max(self.notes[k][kk], vv) if kk == "programs" else self.notes[k][kk] + vv
+                    else:
+                        self.notes[k].setdefault(kk, vv)
         self.inconclusive.extend(d["inconclusive"])
         self.skipped.update(d["skipped"])
 
@@ -247,7 +256,7 @@ def finish(ctx: Ctx, level=None) -> int:
         "distinct_nontrivial": len(ctx.distinct),
         "rule": ctx.notes.pop("rule", "distinct = hash of the normalised concrete input of a case; "
                                       "non-trivial as flagged by the monitor's stated class rule"),
-        "samples": ctx.samples,
+        "samples": ctx.samples or ctx.auto_samples,
         "cases_per_class": dict(ctx.cases),
         "predicate_evaluations": dict(ctx.evals),
         "max_residuals": ctx.stats,
@@ -257,6 +266,7 @@ def finish(ctx: Ctx, level=None) -> int:
         "notes": ctx.notes,
         "shards": ctx.nshards,
     }
+    coverage.update(ctx.notes.pop("coverage_extra", {}) or {})
     ev = {
         "property_id": prop, "tier": ctx.tier, "seed": ctx.seed, "level": level,
         "coverage": coverage,
